@@ -161,7 +161,7 @@ def OBLIGATIONS(tier):
     big = tier == 'thorough'
     t = 1800 if big else 170
     obs = []
-    for n in (1, 2, 3, 4, 5, 6, 7, 8) if big else (1, 2, 3, 4, 5, 6):
+    for n in (1, 2, 3, 4, 5, 6, 7) if big else (1, 2, 3, 4, 5, 6):
         obs.append(Ob(f'escape[len={n}]', 'escape',
                       timeout=(3000 if n > 6 else t) if big else 400,
                       slice={'n': n}))
